@@ -249,6 +249,10 @@ func VerifH_C02_ModDown() {
 				vModDownCase(be, levelQ, levelP, 2)
 			}
 		}
+		// a shallow copy of the extender (own buffers, shared constants) divides like the original
+		cp := be.ShallowCopy()
+		vModDownCase(cp, len(cs.Q)-1, len(cs.P)-1, 0)
+		vModDownCase(cp, len(cs.Q)-1, len(cs.P)-1, 2)
 	}
 	vCover("moddown-reached")
 }
